@@ -444,7 +444,7 @@ pub fn run(cx: &Ctx) {
             S16 { ty: ty.to_string(), xs, ys }
         })
     };
-    cx.run_pt(&Sentinels, cx.by(600, 6000), cx.workers, strat, "random C01 values, n in 0..=4 or a constant stream of length 5..3000");
+    cx.run_pt(&Sentinels, cx.by(5000, 50000), cx.workers, strat, "random C01 values, n in 0..=4 or a constant stream of length 5..3000");
 }
 
 pub fn replay(check: &str, case: &serde_json::Value) -> Option<Result<(), String>> {
